@@ -11,15 +11,17 @@ RULE = ("well-formed seed messages for every command (several member subsets eac
         "complete map, map heads announcing one entry fewer / more, random byte edits) whose rejection status must lie in the three-element set. The implementation's status "
         "must equal the model's and must equal the status the fault class calls for (0x01 / 0x14 / 0x12). Non-trivial = distinct faulty message")
 ASSUMPTIONS = ["sign changes of signed-integer members and null for text-struct Option members are not faults (excluded as in the property)"]
-TECHNIQUE = "Coq proof: status range and status/fault-kind equivalences for all inputs; missing required member -> MissingParameter, duplicated key -> InvalidCbor (entry-loop theorems, any entry order); the decoder's verdict depends only on the bytes read, hence EVERY proper prefix of the encoding of every well-typed parameter value is InvalidCbor (truncation theorem, via totality + round trip); error-mapping tables regenerated from /repo; differential fault enumeration with a fault-class oracle"
+TECHNIQUE = "Coq proof: status range and status/fault-kind equivalences for all inputs; missing required member -> MissingParameter, duplicated key -> InvalidCbor (entry-loop theorems, any entry order); the decoder's verdict depends only on the bytes read, hence EVERY proper prefix of the encoding of every well-typed parameter value is InvalidCbor (truncation theorem, via totality + round trip); errors raised at any nesting depth propagate unchanged (induction over the decoder's calls relation), hence wrong-type faults at any depth are InvalidCbor; error-mapping tables regenerated from /repo; differential fault enumeration with a fault-class oracle"
 LEVEL_TEXT = ("Theorems (Properties/C05.v): every rejection carries one of exactly three statuses for every input; 0x14 iff the typed decoder reported a missing member and 0x01 iff the command byte is "
               "unsupported (all 256 bytes); a parameter map in any order lacking a required parameter, or a nested structure lacking a required member, is SerdeMissingField; a key occurring a second time "
               "after any run of valid entries is a custom error (c05_duplicate_parameter / c05_duplicate_member); c05_verdict_prefix_stable (coq/Proofs/PrefixP.v dec_ext, by induction over the codec "
               "including the skipper and all element loops): a successful read and any failure other than UnexpectedEnd are unchanged by appending bytes; c05_truncation_is_invalid_cbor: for every "
               "command, every well-typed parameter value of any size and every proper prefix of its encoding, Request::deserialize answers 0x12. The error-mapping arms and status discriminants are "
               "regenerated from /repo and compared by the kernel. Reader-level fault classes are theorems too (c05_nonminimal_integer / _length, c05_eight_byte_length, c05_indefinite_length, c05_wrong_major: for every major type, value and "
-              "continuation); how such a fault inside a particular member surfaces at the request level is decided by the single-fault enumeration over spec-built seeds, compared with the extracted "
-              "model and with an independent fault-class oracle.")
+              "continuation). Faults at any depth (coq/Proofs/DeepP.v): the decoder has no error recovery - outcome_propagates, by induction over the calls relation of the typed decoder through options, "
+              "lists, indexed and text-keyed maps, skipped unknown members and the filtering lists; c05_error_at_any_depth: an error raised at any nesting depth is the request's status; "
+              "c05_wrong_type_at_any_depth (and its counterpart for the regenerated declarations): a value of a wrong major type at any depth gives 0x12 in every feature set. The concrete positions "
+              "are additionally enumerated over spec-built seeds and compared with the extracted model and with an independent fault-class oracle.")
 feature_sets = default_feature_sets
 
 
